@@ -309,3 +309,7 @@ pub mod internal_testing {
         )
     }
 }
+
+// Verification hook (inert unless built by `cargo kani`, which sets --cfg kani).
+#[cfg(kani)]
+mod verif_kani;
